@@ -126,6 +126,33 @@ def check(report, tier, seed):
             lines_r.insert(rng.randint(0, len(lines_r)), extra)
         for rep_i in range(k):
             rej["j%d_%d" % (i, rep_i)] = {"hcl": "\n".join(lines_r) + "\n"}
+    # programs with combinational loops - random ones, and loops two of whose wires are fed by one upstream wire:
+    # WHICH loop is shown may differ from run to run, that a loop is diagnosed (and nothing else) may not
+    import props.c10 as c10
+    nloop = 0
+    for i in range(400):
+        if nloop >= (25 if tier == "quick" else 400):
+            break
+        if i % 2 == 0:
+            text, deps = c10.hcl_case(rng)
+            if c10.find_dep_cycle(deps) is None:
+                continue
+        else:
+            m_ = rng.randint(2, 5)
+            loop = ["lw%d" % j for j in range(m_)]
+            up = rng.choice(["pc", "i10bytes", "up0"])
+            lines_l = ["wire %s : 64;" % w for w in loop] + ["pc = 0;", "Stat = STAT_AOK;"]
+            if up == "up0":
+                lines_l += ["wire up0 : 64;", "up0 = (i10bytes)[0..64];"]
+            for j, w in enumerate(loop):
+                nxt = loop[(j + 1) % m_]
+                feeds = " + (%s)[0..64]" % up if rng.random() < 0.7 else ""
+                lines_l.append("%s = [ (%s)[0..4] == %d : %s%s; 1 : %d ];" % (w, up, j, nxt, feeds, j))
+            rng.shuffle(lines_l)
+            text = "\n".join(lines_l) + "\n"
+        for rep_i in range(k):
+            rej["loop%d_%d" % (nloop, rep_i)] = {"hcl": text}
+        nloop += 1
     verdicts, bstats = buildcheck.run_build_cases(report, rej, key_prefix="determinism-reject")
     groups = collections.defaultdict(set)
     for cid, v in verdicts.items():
